@@ -42,7 +42,7 @@ def benign_const(rnd):
     if r < 0.35:
         return rnd.choice([0, 1, 2, 5, 10, -1, -3, 42, 100])
     if r < 0.55:
-        return rnd.choice(["x", "abc", "foo bar", "", "Z9"])
+        return rnd.choice(["x", "abc", "foo bar", "", "Z9", "it's", "back\\slash", "q\\'; --"])
     if r < 0.65:
         return rnd.choice([1.5, -0.25, 2.0, 1e3])
     if r < 0.72:
@@ -54,9 +54,9 @@ def benign_const(rnd):
     if r < 0.88:
         return dt.date(2020, rnd.randint(1, 12), rnd.randint(1, 28))
     if r < 0.92:
-        return dt.datetime(2021, 3, 4, rnd.randint(0, 23), 5, 6)
+        return dt.datetime(2021, 3, 4, rnd.randint(0, 23), 5, 6, tzinfo=rnd.choice([None, dt.timezone.utc]))
     if r < 0.94:
-        return dt.time(rnd.randint(0, 23), 30, 1)
+        return dt.time(rnd.randint(0, 23), 30, 1, tzinfo=rnd.choice([None, dt.timezone(dt.timedelta(hours=2))]))
     if r < 0.96:
         return uuid.UUID(int=rnd.getrandbits(128))
     if r < 0.98:
